@@ -754,4 +754,40 @@ def oodParse (e : Codec ε) (f : OodFrame) (main aux nev : Nat) :
     | .eof => .eof
     | .panic => .panic
 
+-- ------------------------------------------------------------------------------------------------
+-- the `std::io::Cursor` byte source (the required methods of `ByteReader`; the provided methods are the
+-- same code for every source)
+
+structure Cursor where
+  buf : Bytes
+  pos : Nat
+  deriving Repr, DecidableEq
+
+/-- the unread bytes (`cursor_remaining_buf!`) -/
+def Cursor.rem (c : Cursor) : Bytes := c.buf.drop (min c.pos c.buf.length)
+
+def Cursor.readU8 (c : Cursor) : Res (Nat × Cursor) :=
+  match c.rem with
+  | [] => .eof
+  | b :: _ => .ok (b, { c with pos := c.pos + 1 })
+
+def Cursor.peekU8 (c : Cursor) : Res (Nat × Cursor) :=
+  match c.rem with
+  | [] => .eof
+  | b :: _ => .ok (b, c)
+
+/-- `read_slice` / `read_array`: `size.saturating_sub(pos) < len` is the end-of-data test -/
+def Cursor.readSlice (n : Nat) (c : Cursor) : Res (Bytes × Cursor) :=
+  if c.buf.length - c.pos < n then .eof
+  else .ok ((c.buf.drop (min c.pos c.buf.length)).take n, { c with pos := c.pos + n })
+
+def Cursor.hasMoreBytes (c : Cursor) : Bool := c.pos < c.buf.length
+
+/-- forget the cursor: keep the unread bytes -/
+def Res.unread : Res (α × Cursor) → Res (α × Bytes)
+  | .ok (a, c) => .ok (a, c.rem)
+  | .err => .err
+  | .eof => .eof
+  | .panic => .panic
+
 end Model.Serde
